@@ -193,7 +193,11 @@ class Arms:
             return None if nm in NOISE else "json:" + nm
         tr = c.get("trait") or ""
         if tr.endswith("convert::TryFrom") and nm == "try_from":
-            return "try_from:" + (c.get("self_ty") or "?")
+            dst = c.get("self_ty") or "?"
+            src = (list(c.get("args") or []) + ["?", "?"])[1]
+            if _lossless_int(src, dst):
+                return None      # the blanket infallible conversion (every source value is a target value): no check happens
+            return "try_from:" + dst
         if tr.endswith("convert::From") and nm == "from":
             st = c.get("self_ty") or "?"
             if st == "f64" and list(c.get("args") or [])[-1:] == ["f32"]:
@@ -237,6 +241,15 @@ class Arms:
         if key.startswith("core::panicking") or e["diverges"]:
             return "PANIC"
         return "std:" + nm
+
+
+def _lossless_int(src, dst):
+    w = {"8": 8, "16": 16, "32": 32, "64": 64, "128": 128}
+    ms, md = re.match(r"^([iu])(8|16|32|64|128)$", src or ""), re.match(r"^([iu])(8|16|32|64|128)$", dst or "")
+    if not ms or not md:
+        return src == dst and src in ("usize", "isize")
+    (ss, sw), (ds, dw) = (ms.group(1), w[ms.group(2)]), (md.group(1), w[md.group(2)])
+    return (ss == ds and dw >= sw) or (ss == "u" and ds == "i" and dw > sw)
 
 
 def float_le(snap):
